@@ -91,11 +91,18 @@ class CollationManager(context_class_base):
         if collation is None:
             msg = 'collation cannot be an empty sequence'
             raise xpath_error('XPTY0004', msg, self.token)
-        elif not urlsplit(collation).scheme and token is not None:
-            # Collation is a relative URI: try to complete with the static base URI
-            base_uri = token.parser.base_uri
-            if base_uri:
-                collation = urljoin(base_uri, collation)
+
+        try:
+            collation_parts = urlsplit(collation)
+            if not collation_parts.scheme and token is not None:
+                # Collation is a relative URI: try to complete with the static base URI
+                base_uri = token.parser.base_uri
+                if base_uri:
+                    collation = urljoin(base_uri, collation)
+                    collation_parts = urlsplit(collation)
+        except ValueError:
+            msg = f'Unsupported collation {collation!r}'
+            raise xpath_error('FOCH0002', msg, self.token) from None
 
         if collation == UNICODE_CODEPOINT_COLLATION:
             self.lc_collate = None
@@ -112,7 +119,7 @@ class CollationManager(context_class_base):
         elif collation.startswith(UNICODE_COLLATION_BASE_URI):
             self.lc_collate = 'en_US.UTF-8'
             self.fallback = True
-            for param in urlsplit(collation).query.split(';'):
+            for param in collation_parts.query.split(';'):
                 assert isinstance(param, str)
                 if param.startswith('lang='):
                     # Language code: should be a string in lexical space of xs:language,
